@@ -89,6 +89,8 @@ class Engine:
         self.model = None
         self.inputs = {}
         self.input_vars = {}
+        self.used_vars = set()
+        self._seen_terms = set()
         self.steps = 0
         self.path_checks = []  # (label, verdict)
         self.reached = []
@@ -109,9 +111,29 @@ class Engine:
                 raise PathAbort(f"prefix not sat: {r}")
             self.model = self.solver.model()
 
+    def _note_vars(self, t):
+        """record the input constants occurring in an asserted formula (everything else is don't-care for the path)"""
+        stack = [t]
+        seen = self._seen_terms
+        while stack:
+            x = stack.pop()
+            i = x.get_id()
+            if i in seen:
+                continue
+            seen.add(i)
+            if z3.is_const(x):
+                if x.decl().kind() == z3.Z3_OP_UNINTERPRETED:
+                    self.used_vars.add(x.decl().name())
+            else:
+                stack.extend(x.children())
+
+    def _assert(self, cond):
+        self.solver.add(cond)
+        self._note_vars(cond)
+
     def add(self, cond):
         """add a constraint that is known to be consistent with the current model or invalidate the model"""
-        self.solver.add(cond)
+        self._assert(cond)
         if self.model is not None and not z3.is_true(self.model.eval(cond, model_completion=True)):
             self.model = None
 
@@ -173,7 +195,7 @@ class Engine:
         r = self._check(other)
         if r == z3.sat:
             self.work.append(self.trace + [(not taken, aux)])
-        self.solver.add(cond if taken else z3.Not(cond))
+        self._assert(cond if taken else z3.Not(cond))
         self.trace.append((taken, aux))
         return taken
 
@@ -213,6 +235,13 @@ class Engine:
             if self.decide(v.t == z3.BitVecVal(c, v.w), aux=c):
                 return c
 
+    def prefer(self, cond):
+        """narrow the current path to inputs satisfying cond when that is possible (used to obtain small witnesses); never forks"""
+        if cond is None:
+            return
+        if self._check(cond) == z3.sat:
+            self.add(cond)
+
     def concretize_clamped(self, v, n):
         """concrete value usable as a slice bound of a length-n sequence (Python clamps slice bounds)"""
         if isinstance(v, int):
@@ -250,6 +279,7 @@ class Engine:
             raise TypeError(f"check() needs a bool or SymBool, got {type(cond)}")
         r = self._check(z3.Not(t))
         if r == z3.sat:
+            self._note_vars(t)
             self._violation(label, self.solver.model())
             self.path_checks.append((label, "violated"))
             self.add(t)
@@ -268,15 +298,14 @@ class Engine:
         """total input assignment: the model's value where the solver assigned one, a deterministic default otherwise"""
         out = {}
         for k, v in self.inputs.items():
-            var = self.input_vars[k]
-            r = m.eval(var, model_completion=False)
+            used = k in self.used_vars
             if isinstance(v, SymInt):
-                if z3.is_bv_value(r):
+                if used:
                     out[k] = m.eval(v.t, model_completion=True).as_signed_long()
                 else:
                     out[k] = default_value(k, v.lo, v.hi)
             else:
-                out[k] = z3.is_true(r) if (z3.is_true(r) or z3.is_false(r)) else bool(default_value(k, 0, 1))
+                out[k] = z3.is_true(m.eval(v.t, model_completion=True)) if used else bool(default_value(k, 0, 1))
         return out
 
     def _violation(self, label, m):
